@@ -148,6 +148,10 @@ class Check:
                 reproduced.setdefault(e['id'], [e, 0])[1] += 1
             else:
                 new.append(k)
+        if os.environ.get('VERIF_DUMP_KEYS'):
+            # development aid for drafting known_findings.json by hand (never read back at run time)
+            with open(os.environ['VERIF_DUMP_KEYS'], 'w') as f:
+                json.dump({k: self.viol_keys[k] for k in new}, f, indent=0, sort_keys=True)
         lines = []
         for fid, (e, n) in sorted(reproduced.items()):
             lines.append('KNOWN-FINDING: property=%s %s [%s; %d listed case(s) reproduced]'
